@@ -200,6 +200,10 @@ func (op *Operation) handle(m *Message) {
 func (op *Operation) Cancel() {
 	op.client.Lock()
 	defer op.client.Unlock()
+	if _, ok := op.client.operations[op.ID]; !ok {
+		// already canceled
+		return
+	}
 	delete(op.client.operations, op.ID)
 	close(op.handler)
 }
